@@ -85,8 +85,12 @@ func parseJobsN(harness, prefix string, tier string, seed int64, extra map[strin
 		for k, v := range extra {
 			params[k] = v
 		}
+		depth, fuel := 300, 0
+		if harness == "zzH_C17" {
+			depth, fuel = 1200, 40_000_000 // the recursive grammar interpreter nests deeper than the generated parser
+		}
 		jobs = append(jobs, &engine.Job{ID: prefix + id, Harness: harness, Params: params, DepthIsViolation: harness == "zzH_C02",
-			Docs: map[string]*engine.DocCfg{"doc": docCfg(1, 1, []string{"a"}, engine.KNil|engine.KFloat)}, MaxPaths: 3000000, MaxDepth: 300})
+			Docs: map[string]*engine.DocCfg{"doc": docCfg(1, 1, []string{"a"}, engine.KNil|engine.KFloat)}, MaxPaths: 3000000, MaxDepth: depth, Fuel: fuel})
 	}
 	// (a) fully symbolic strings, split by the class of the first two bytes for parallelism
 	ranges := []string{"0-35", "36-36", "37-45", "46-46", "47-63", "64-64", "65-90", "91-91", "92-127"}
@@ -112,6 +116,17 @@ func parseJobsN(harness, prefix string, tier string, seed int64, extra map[strin
 	}
 	// (b) skeletons with one (thorough: also two) symbolic bytes
 	sk := skeletons(tier, rng)
+	if harness == "zzH_C17" {
+		// the grammar-side interpreter has no memo table (plain PEG semantics): its cost is
+		// exponential in the filter nesting depth, so the deepest skeletons are left to C02
+		var keep []string
+		for _, s := range sk {
+			if strings.Count(s, "[?(") <= 5 {
+				keep = append(keep, s)
+			}
+		}
+		sk = keep
+	}
 	type hole struct {
 		s   string
 		pos []int
